@@ -19,8 +19,8 @@ LEVEL = "exploration"
 RULE = ("cases = every table of 1..K rows (K=2 quick, 3 thorough) over 40 row kinds (good; surrounding blanks; embedded comma/semicolon/tab; "
         "embedded newline; doubled quote; Unicode; Unicode line-separator characters inside a cell; short by one and by two cells; long; blank line; all-empty cells; bad date (out-of-range, 2-digit year, 3-digit month, underscore, sign, unpadded, other format); empty description; "
         "amount cells abc, empty, 0, 0.00, -0, nan, inf, -Infinity, (12.50), $1,234.50, 1.234,50, EUR 7, 1.234, 12,500, -45.10), each run under "
-        "7 layouts (skip column, location, extra field mid/last, description template with capture last, '%d %b %y' dates) x 5 delimiters (comma, ';', "
-        "tab, regex, regex with an optional last group) x header/no header x decimal '.'/',' x sign {amount}/{-amount}/{+amount}/negate_amount override. non-trivial = table with "
+        "7 layouts (skip column, location, extra field mid/last, description template with capture last, '%d %b %y' dates) x 6 delimiters (comma, ';', "
+        "tab, regex, regex with an optional last group, regex with named groups) x header/no header x decimal '.'/',' x sign {amount}/{-amount}/{+amount}/negate_amount override. non-trivial = table with "
         ">=1 row that must be skipped and >=1 that must be kept under some configuration; tables distinct by construction")
 ASSUMPTIONS = ["expected transactions are derived from the cell table by an independent Decimal-based reader following the property statement",
                "not judged: location when no location column is mapped or the cell is empty; ambiguous numerals (1e3, 1_0, +5); dates followed by trailing text; "
@@ -59,7 +59,7 @@ LAYOUTS = [
     {"name": "L5", "cols": ["date", "description", "amount", "card"], "datefmt": "%m/%d/%Y"},
     {"name": "L6", "cols": ["date", "amount", "type", "merchant"], "datefmt": "%m/%d/%Y", "template": "{merchant} ({type})"},
 ]
-DELIMS = ["comma", "semicolon", "tab", "regex", "regex-opt"]
+DELIMS = ["comma", "semicolon", "tab", "regex", "regex-opt", "regex-named"]
 SIGNS = ["keep", "negate", "abs", "override", "abs+override"]      # the last one: {+amount} together with negate_amount: true
 DECIMALS = [".", ","]
 
@@ -147,6 +147,8 @@ def parse_real(rows_cells, L, delim, header, decimal, sign, bom=False):
         src["delimiter"] = T.regex_delimiter(len(L["cols"]))
     elif delim == "regex-opt":
         src["delimiter"] = T.regex_delimiter_opt(len(L["cols"]))
+    elif delim == "regex-named":
+        src["delimiter"] = T.regex_delimiter_named(len(L["cols"]))
     if sign in ("override", "abs+override"):
         src["negate_amount"] = True
     resolved = resolve_source_format(src)
